@@ -41,6 +41,24 @@ def fsck(src, img, flags, tag):
     return rc, probs, out
 
 
+def dir_cycle(src, base, img):
+    """two directories that are each other's parent, with consistent link counts, reachable from nowhere"""
+    shutil.copy(base, img)
+    env = e2v.tool_env(src)
+    dbg = os.path.join(src, "debugfs/debugfs")
+    e2v.sh([dbg, "-w", "-f", "-", img], input=b"mkdir ZA\nmkdir ZA/ZB\n", env=env, timeout=60)
+    fs = Fs(img)
+    root = {e[0]: e[1] for e in fs.dir_entries(2)}
+    za = root.get(b"ZA") or root.get("ZA")
+    zb = {e[0]: e[1] for e in fs.dir_entries(za)}
+    zb = zb.get(b"ZB") or zb.get("ZB")
+    rl = fs.inode(2)["links"]
+    cmds = "ln <%d> <%d>/A2\nunlink ZA\nunlink <%d>/..\nln <%d> <%d>/..\nsif <2> links_count %d\nsif <%d> links_count 3\nsif <%d> links_count 3\n" % (
+        za, zb, za, zb, za, rl - 1, za, zb)
+    e2v.sh([dbg, "-w", "-f", "-", img], input=cmds.encode(), env=env, timeout=60)
+    return ["directories %d and %d made each other's parent and unlinked from the root (link counts consistent)" % (za, zb)]
+
+
 def one_case(src, idx, seed, tier, keep=False):
     r = e2v.rng(seed, "c02", idx)
     name, opts, size = corrupt.IMG_CONFIGS[idx % len(corrupt.IMG_CONFIGS)] if tier == "quick" else r.choice(corrupt.IMG_CONFIGS)
@@ -52,6 +70,10 @@ def one_case(src, idx, seed, tier, keep=False):
         name, opts, size = [c for c in corrupt.IMG_CONFIGS if c[0] == ("ext3" if idx % 2 == 0 else "ext4_1k")][0]
         base = corrupt.build_image(src, WORK, name, opts, size, 1)
         desc = corrupt.corrupt(base, img, r, directed=idx // 2)
+    elif idx < nd + 2:
+        name, opts, size = [c for c in corrupt.IMG_CONFIGS if c[0] == ("ext3" if idx % 2 == 0 else "ext4_1k")][0]
+        base = corrupt.build_image(src, WORK, name, opts, size, 1)
+        desc = dir_cycle(src, base, img)
     else:
         desc = corrupt.corrupt(base, img, r)
     recipe = {"base": name, "mke2fs": opts, "size": size, "build_seed": 1 + (idx // 200) % 3, "case_index": idx, "operators": desc}
